@@ -43,14 +43,36 @@ def run_one(script: Dict[str, Any], worker: str, seed: int = 0) -> List[Dict[str
     return sess.trace.events
 
 
+WATCHDOG_S = 600   # real seconds for one execution (they take milliseconds): only ever ends a hung harness
+
+
+class HarnessWatchdog(BaseException):
+    pass
+
+
+def _watchdog(signum: int, frame: Any) -> None:
+    raise HarnessWatchdog("execution did not end within %d s of real time" % WATCHDOG_S)
+
+
 def _run_chunk(args: Tuple[List[Tuple[int, Dict[str, Any], str]], int]) -> List[Tuple[int, Any]]:
+    import signal
+    import threading
+
     chunk, seed = args
     out = []
+    armed = threading.current_thread() is threading.main_thread()
+    if armed:
+        signal.signal(signal.SIGALRM, _watchdog)
     for idx, script, worker in chunk:
         try:
+            if armed:
+                signal.alarm(WATCHDOG_S)
             out.append((idx, run_one(script, worker, seed)))
         except BaseException as error:  # harness failure, reported as such
             out.append((idx, {"harness_error": "".join(traceback.format_exception(error))[-2000:]}))
+        finally:
+            if armed:
+                signal.alarm(0)
     return out
 
 
